@@ -1128,7 +1128,7 @@ class Evaluator(Run):
         if isinstance(node.value, ast.Yield):
             v = self.ex_yield(node.value, frame)
         else:
-            self.ctx.push_hint(node)
+            self.ctx.push_hint(node, frame)
             try:
                 v = self.ev(node.value, frame)
             finally:
